@@ -316,6 +316,62 @@ def corrupt_field(field, value, pred):
     return f
 
 
+def system_behaviours(ctx, to, orders, num, depth, seed):
+    """TLC as generator of SYSTEM behaviours (MC_MidiSystem, `-simulate`, full value domain, 16 channels):
+    senders put encodings on a wire, real-time messages are inserted anywhere, the receiver delivers to three
+    scanners at once and polls.  Every printed behaviour also satisfied the end-to-end invariants."""
+    consts = {"Chans": setfmt(range(16)), "V7": "{0}", "V14": "{0}", "Cns14": setfmt([n for n in range(32) if n != 6]),
+              "TOc": str(999 if to < 0 else to), "CAP": str(max(to, 0) + 3), "MaxSend": "100000", "MaxRt": "100000",
+              "Orders": orders, "Emitting": "TRUE", "MaxN": str(depth)}
+    cfg = "SPECIFICATION GenSpec\nCONSTANTS\n" + "".join("  %s = %s\n" % kv for kv in consts.items())
+    cfg += "INVARIANT Dump I_E2E_Cc14 I_E2E_Poll I_E2E_Pn\nCHECK_DEADLOCK FALSE\n"
+    res = tlc(ctx.work, "MC_MidiSystem", cfg, workers=1, timeout=900, tag="sysgen",
+              extra=["-simulate", "num=%d" % num, "-depth", str(8 * depth), "-seed", str(seed)])
+    if res.errors:
+        raise ToolError("system behaviour generation failed:\n" + tlc_text(res))
+    behs = []
+    seen = set()
+    for t in res.of("SYSB"):
+        key = t[1][:3000]
+        if key not in seen:
+            seen.add(key)
+            behs.append(json.loads(t[1]))
+    if not behs:
+        raise ToolError("system behaviour generation produced nothing:\n" + tlc_text(res))
+    return behs
+
+
+def system_script(beh, to, base=40):
+    """The receiver side of a system behaviour on three real scanners fed the same stream; `exp` = what the
+    specification's scanner reported, filed under the property that owns that scanner's reports."""
+    ids = {"cc14": base, "pn": base + 1, "poll": base + 2}
+    rows = [{"op": "new", "id": ids["cc14"], "k": "cc14", "to": 0}, {"op": "new", "id": ids["pn"], "k": "pn", "to": 0},
+            {"op": "new", "id": ids["poll"], "k": "poll", "to": to}]
+    for e in beh:
+        if e["op"] == "feed":
+            rows.append({"op": "feed", "id": ids["cc14"], "m": e["m"], "exp": e["o14"], "expp": "C08"})
+            rows.append({"op": "feed", "id": ids["pn"], "m": e["m"], "exp": e["opn"], "expp": "C11"})
+            rows.append({"op": "feed", "id": ids["poll"], "m": e["m"], "exp": e["opoll"], "expp": "C12"})
+        elif e["op"] == "poll":
+            rows.append({"op": "poll", "id": ids["poll"], "ch": e["ch"], "exp": e["opoll"], "expp": "C12"})
+        else:
+            rows.append({"op": "tick", "id": -1, "dt": e["dt"]})
+    return rows
+
+
+def system_behaviour_battery(ctx):
+    rows = []
+    n = 0
+    for i, (to, orders) in enumerate(((2, '{"msb", "lsb"}'), (0, '{"lsb"}'), (5, '{"msb"}'))):
+        behs = system_behaviours(ctx, to, orders, ctx.q(6, 30), ctx.q(250, 500), ctx.seed * 1000 + i)
+        for b in behs:
+            rows += system_script(b, to)
+            n += 1
+    ctx.extra = getattr(ctx, "extra", {})
+    ctx.extra["system_behaviours_generated_by_tlc"] = n
+    run_script(ctx, rows, "system-behaviours")
+
+
 def nostd_run(ctx, kind, n):
     """The 14-bit CC and (N)RPN scanners also exist without the `std` feature: the same random histories,
     round trips and long runs against the build of the crate with default-features = false."""
